@@ -183,13 +183,15 @@ Proof.
 Qed.
 
 Lemma read_be_u32_spec N c : cur_ok N c ->
-  postr (read_be_u32 c) (fun '(v, c') => cur_ok N c' /\ 0 <= v <= u32_max /\ read_count c' = read_count c + 4).
+  postr (read_be_u32 c) (fun '(v, c') => cur_ok N c' /\ 0 <= v <= u32_max /\ read_count c' = read_count c + 4 /\
+                                         exists b, remaining c = b ++ remaining c' /\ zlen b = 4 /\ v = be_uint b).
 Proof.
   intros Hc. unfold read_be_u32.
   eapply postr_rbind; [apply read_exact_spec; exact Hc|].
-  intros [b c'] (Hc' & Hl & Hb & _ & Hrc). unfold copy_from_slice.
+  intros [b c'] (Hc' & Hl & Hb & Heq & Hrc). unfold copy_from_slice.
   replace (zlen b =? 4) with true by lia. cbv [bind]. apply postr_ok.
-  split; [exact Hc'|]. split; [apply be_uint4_bound; assumption|exact Hrc].
+  split; [exact Hc'|]. split; [apply be_uint4_bound; assumption|]. split; [exact Hrc|].
+  exists b. auto.
 Qed.
 
 (** ** Scanning *)
